@@ -22,8 +22,8 @@ pub struct PropSpec {
     pub thorough_boost: f64,
 }
 
-/// limb-pattern keys x 8 key codecs + edge-encoding keys x 2 groups x 8 key codecs
-const GRID_KEYS: u64 = 1296 * 8 + ((crate::env::EDGE_SCALARS_G1.len() + crate::env::EDGE_SCALARS_G2.len()) as u64) * 16;
+/// limb-pattern keys x 10 key codecs (8 + the two further serde_json front ends) + edge-encoding keys x 2 groups x 10
+const GRID_KEYS: u64 = 1296 * 10 + ((crate::env::EDGE_SCALARS_G1.len() + crate::env::EDGE_SCALARS_G2.len()) as u64) * 20;
 /// every large framed-size boundary (sc_crypt::big_lens)
 const BIG_LENS: u64 = 182;
 /// (group, scheme) x every composite-boundary message length (env::composite_lens)
@@ -160,7 +160,7 @@ pub fn spec(id: &str) -> Option<PropSpec> {
             vec!["cur-blst"],
         )),
         "C15" => Some(base(
-            vec![cs(&CODEC, "vault", 96, 900, false)],
+            vec![cs(&CODEC, "vault", 96, 900, false), cs(&CODEC, "vault-big", 4, 12, false)],
             "cases = (group, data type (all 28), codec {bytes via &[u8] / Vec<u8> / &Vec<u8> / Box<[u8]>, serde_bare, serde_json, big- and little-endian for scalar types and the curve-tagged key wrapper}, specimen kind {generated, identity point, scalar 1 / r-1, each scheme variant, timestamps 0 / 2^63 / u64::MAX, share identifiers incl. 1 and 255, payload 0 B .. 64 KiB, limb-pattern secret keys, points k*G whose compressed coordinate begins with the modulus' leading 32-bit word or a zero word (15 scalars found by an exhaustive walk, in every point-carrying type)}); \
              every specimen is written to a vault's disk, survives a crash/restart, is reloaded, compared (bytes and PartialEq) and forwarded to a second vault in another codec; the type x group x scheme x codec table is enumerated in every run, values within a cell are seeded; non-trivial = edge specimens",
             vec!["cur-blst"],
@@ -213,7 +213,7 @@ pub fn spec(id: &str) -> Option<PropSpec> {
             )
         }),
         "C18" => {
-            let mut v = vec![cs(&COMPAT, "golden", 8, 8, true), cs(&COMPAT, "ref-interop", 600, 12000, false)];
+            let mut v = vec![cs(&COMPAT, "golden", 8, 8, true), cs(&COMPAT, "ref-interop", 600, 12000, false), cs(&COMPAT, "ref-interop-big", BIG_LENS, BIG_LENS * 2, true)];
             // mixed-version cluster: 3 = working tree serves, pinned release mirrors (new-made artefacts consumed by the old
             // release); 4 = pinned release serves, working tree mirrors (old-made artefacts consumed by the new tree)
             for mode in [3u8, 4] {
